@@ -45,6 +45,21 @@ def build_pool(rng, tier):
                 C, vals, fam = (gen.covering_instance if a.startswith("cover") else gen.packing_instance)(rng, nmax=8)
                 u = pack_unit(a, C, vals, rng, fmt=fmt, out=rng.choice(["pst", "pst", "sums", "bincount", "partition"]))
                 pool.append({"port": "pack", "args": u["params"]})
+        # argument-mutation bait: unsorted items with zero-valued and repeated entries, as a plain list and as names + value function,
+        # for every algorithm (an in-place sort, de-duplication or removal of zeros on the caller's object shows here)
+        for a in ["ff", "ffd", "bf", "bfd", "bc", "cover_dec", "cover_23", "cover_34"]:
+            for fmt in ["list", "names_valueof"]:
+                C = rng.choice([10, 12, 20])
+                vals = [rng.randint(1, C) for _ in range(rng.randint(2, 5))]
+                vals += [rng.choice(vals)] + [0] * rng.randint(1, 2)
+                rng.shuffle(vals)
+                pool.append({"port": "pack", "args": pack_unit(a, C, vals, rng, fmt=fmt, out=rng.choice(["pst", "sums", "bincount"]))["params"]})
+        for a in ["greedy", "roundrobin", "bidir", "multifit", "kk", "cg", "ckk", "snp", "dp", "cbldm"]:
+            for fmt in ["list", "names_valueof"]:
+                vals = [rng.randint(1, 30) for _ in range(rng.randint(2, 5))]
+                vals += [rng.choice(vals)] + [0] * rng.randint(1, 2)
+                rng.shuffle(vals)
+                pool.append({"port": "partition", "args": part_unit(a, 2 if a == "cbldm" else rng.choice([2, 3]), vals, rng, fmt=fmt, out="pst")["params"]})
         # failing calls
         for a in ["ff", "bfd", "bc"]:
             u = pack_unit(a, 10, [3, 11, 4, 10], rng, fmt=rng.choice(gen.FORMATS))
